@@ -469,7 +469,7 @@ def run(run, tier, seed, replay=None):
     while len(designs) < n:
         r = core.rng(seed, "C01", "designs", k)
         k += 1
-        designs.append(D.gen_design(r, size=r.choice([1, 2, 2, 3]) if quick else r.choice([1, 2, 3, 4])))
+        designs.append(D.gen_design(r, size=r.choice([1, 2, 2, 3]) if quick else r.choice([1, 2, 3, 4]), reconnect=True))
     jobs = [dict(kind="abs", design=d) for d in designs]
     evaluate(run, "designs", jobs, hashseeds, seed, 75 if quick else 100,
              nontrivial=lambda j: sum(D.features(j["design"]).values()) >= 3,
